@@ -504,5 +504,31 @@ theorem processConnection_mem (cfg : Cfg) (items : List ConnItem) :
       · obtain ⟨it', hm, sec, he⟩ := ih _ o h
         exact ⟨it', List.mem_cons_of_mem _ hm, sec, he⟩
 
+/-! ## §5 localhost names of an instance -/
+
+theorem toLower_idem (c : UInt8) : toLower (toLower c) = toLower c := by
+  simp only [toLower, isUpper]
+  grind
+
+theorem lower_lower (s : Bytes) : lower (lower s) = lower s := by
+  unfold lower
+  rw [List.map_map]
+  apply List.map_congr_left
+  intro c _
+  exact toLower_idem c
+
+theorem mem_hpLocalhost (aliases : List Bytes) (x : Bytes) :
+    x ∈ hpLocalhost aliases ↔ x ∈ builtinLocalhost ∨ ∃ a ∈ aliases, lower a = x := by
+  unfold hpLocalhost
+  simp only [List.mem_append, List.mem_map]
+
+theorem mem_localhostAliases (recs : List HostsRecord) (x : Bytes) :
+    x ∈ localhostAliases recs ↔ ∃ r ∈ recs, isLoopbackLiteral r.ip = true ∧ x ∈ r.names := by
+  unfold localhostAliases
+  simp only [List.mem_flatMap, List.mem_filter]
+  constructor
+  · rintro ⟨r, ⟨hr, hl⟩, hx⟩; exact ⟨r, hr, hl, hx⟩
+  · rintro ⟨r, hr, hl, hx⟩; exact ⟨r, ⟨hr, hl⟩, hx⟩
+
 end C04
 end FwdVerif
